@@ -385,7 +385,7 @@ pub fn run(args: &Args, rep: &mut Report) {
     BIG_GRAPHS.store(if instrumented { 0 } else if thorough { 2 } else { 1 }, Ordering::Relaxed);
     match args.prop.as_str() {
         "C01" | "C03" | "C06" | "C16" => {
-            let n = scale(30_000.0, 1_200_000.0);
+            let n = scale(30_000.0, 600_000.0);
             for i in 0..n {
                 let o = opts_for(&args.prop, &mut r);
                 let sc = scengen::gen_scenario(&mut r, &o);
@@ -421,7 +421,7 @@ pub fn run(args: &Args, rep: &mut Report) {
             let miri = args.regime == "miri";
             let pools: &[usize] = if miri { &[1, 3] } else if thorough { &[1, 2, 3, 5, 8, 16] } else { &[1, 2, 5, 16] };
             let seeds = if miri { 1 } else if thorough { 4 } else { 2 };
-            let n = if miri { 1 } else { scale(2_000.0, 60_000.0) };
+            let n = if miri { 1 } else { scale(2_000.0, 30_000.0) };
             for _ in 0..n {
                 let mut o = opts_for("C02", &mut r);
                 if miri {
